@@ -161,7 +161,28 @@ pub struct ExploreStats {
 /// Wall-clock budget of one exploration (seconds): an engine-level cap, so that a subject whose
 /// choice tree does not terminate (e.g. a rejection loop that the alphabet always rejects) ends as a
 /// *capped* exploration -- reported as such, never as a verdict -- instead of hanging the check.
+static PROCESS_START: std::sync::OnceLock<std::time::Instant> = std::sync::OnceLock::new();
+
+/// What is left of the process-wide exploration budget (900 s quick, 3 h thorough, `VERIF_PROCESS_WALL_S`):
+/// once it is used up every further exploration is capped at once, so that a check ends with what it
+/// found (violations stand; otherwise a machinery exit) instead of being killed by the outer watchdog.
+pub fn process_budget_left() -> std::time::Duration {
+    let start = *PROCESS_START.get_or_init(std::time::Instant::now);
+    let total = std::env::var("VERIF_PROCESS_WALL_S").ok().and_then(|x| x.parse::<u64>().ok()).unwrap_or_else(|| {
+        if std::env::var("VERIF_TIER").map(|t| t == "thorough").unwrap_or(false) {
+            10_800
+        } else {
+            900
+        }
+    });
+    std::time::Duration::from_secs(total).saturating_sub(start.elapsed())
+}
+
 pub fn explore_wall_budget() -> std::time::Duration {
+    explore_wall_budget_raw().min(process_budget_left())
+}
+
+fn explore_wall_budget_raw() -> std::time::Duration {
     let s = std::env::var("VERIF_EXPLORE_WALL_S").ok().and_then(|x| x.parse::<u64>().ok()).unwrap_or_else(|| {
         if std::env::var("VERIF_TIER").map(|t| t == "thorough").unwrap_or(false) {
             3600
